@@ -289,16 +289,14 @@ class Denote:
         term has no prefix operator.
     """
 
-    def __init__(self, text: str, builtins: set[str], keep_blank: bool = False):
+    def __init__(self, text: str, builtins: set[str]):
         self.t = text
         self.builtins = builtins
-        # keep_blank: python-pest's convention for doc lines (the optional blank after the marker is part of
-        # the line) instead of pest's (the line is inner_doc)
-        self.keep_blank = keep_blank
 
     def doc(self, p) -> str:
-        inner = p[3][0]
-        return self.t[p[1] + 3 : inner[2]] if self.keep_blank else self.txt(inner)
+        # grammar_doc = ${ "//!" ~ space? ~ inner_doc }, line_doc = ${ "///" ~ space? ~ inner_doc }: the doc line
+        # is inner_doc, the optional blank belongs to the marker
+        return self.txt(p[3][0])
 
     def txt(self, p) -> str:
         return self.t[p[1] : p[2]]
@@ -362,7 +360,7 @@ class Denote:
             ch = ch[1:]
         for c in ch:
             k = c[0]
-            nums = [int(self.txt(x)) for x in c[3] if x[0] == "number"]
+            nums = [spec_int(self.txt(x)) for x in c[3] if x[0] == "number"]
             if k == "optional_operator":
                 node = "OPT " + node
             elif k == "repeat_operator":
@@ -408,15 +406,23 @@ class Denote:
             return "PUSHL " + enc_str(self.string(p[3][1]))
         if k == "peek_slice":
             op = next(c for c in p[3] if c[0] == "range_operator")
-            a = [int(self.txt(c)) for c in p[3] if c[0] == "integer" and c[1] < op[1]]
-            b = [int(self.txt(c)) for c in p[3] if c[0] == "integer" and c[1] > op[1]]
+            a = [spec_int(self.txt(c)) for c in p[3] if c[0] == "integer" and c[1] < op[1]]
+            b = [spec_int(self.txt(c)) for c in p[3] if c[0] == "integer" and c[1] > op[1]]
             return f"SLICE {a[0] if a else '-'} {b[0] if b else '-'}"
         raise AssertionError(k)
 
 
-def denote(text: str, pairs_str: str, builtins: set[str], keep_blank: bool = False):
+def spec_int(s: str) -> int:
+    """the value of a `number` / `integer` of the meta-grammar; leading zeros are stripped first so that CPython's
+    limit on the length of a digit string (4300) only concerns significant digits"""
+    neg = s.startswith("-")
+    digits = s.lstrip("-").lstrip("0") or "0"
+    return -int(digits) if neg else int(digits)
+
+
+def denote(text: str, pairs_str: str, builtins: set[str]):
     """(grammar docs, {name: (modifier bits, doc lines, serialised expression)})"""
-    return Denote(text, builtins, keep_blank).grammar(parse_pairs(pairs_str))
+    return Denote(text, builtins).grammar(parse_pairs(pairs_str))
 
 
 # ---------------------------------------------------------------- sentences of the meta-grammar
